@@ -142,8 +142,28 @@ func (w *World) applyMisc(ds *Doc, op sim.Op, o *Obs) bool {
 		if err == nil {
 			ds.Images = append(ds.Images, info)
 		}
-	case "cellimg": // I[8]=table, I[9]=row, I[10]=col
+	case "cellimg": // I[8]=table (1000+k: the k-th table nested in a cell of one of the document's tables), I[9]=row, I[10]=col
 		t := ds.table(op.Int(8))
+		if op.Int(8) >= 1000 {
+			t = nil
+			var nested []*document.Table
+			for _, top := range ds.Tables {
+				if top == nil {
+					continue
+				}
+				for ri := range top.Rows {
+					for ci := range top.Rows[ri].Cells {
+						for k := range top.Rows[ri].Cells[ci].Tables {
+							nested = append(nested, &top.Rows[ri].Cells[ci].Tables[k])
+						}
+					}
+				}
+			}
+			if len(nested) > 0 {
+				t = nested[(op.Int(8)-1000)%len(nested)]
+				w.Stats.Probe("picture_in_nested_table")
+			}
+		}
 		if t == nil {
 			o.Skipped, o.Res = true, "skip"
 			return true
